@@ -5,6 +5,7 @@ go 1.24.4
 require (
 	github.com/agglayer/aggkit v0.0.0
 	github.com/ethereum/go-ethereum v1.15.5
+	github.com/mattn/go-sqlite3 v1.14.28
 )
 
 require (
@@ -73,7 +74,6 @@ require (
 	github.com/jmoiron/sqlx v1.2.0 // indirect
 	github.com/logrusorgru/aurora v2.0.3+incompatible // indirect
 	github.com/mailru/easyjson v0.9.0 // indirect
-	github.com/mattn/go-sqlite3 v1.14.28 // indirect
 	github.com/mmcloughlin/addchain v0.4.0 // indirect
 	github.com/munnerz/goautoneg v0.0.0-20191010083416-a7dc8b61c822 // indirect
 	github.com/pkg/errors v0.9.1 // indirect
